@@ -437,3 +437,15 @@ EQUIVS = [
       "        if not await self.authenticator.can_do(auth_token, Action.save.value, event):\n            raise AuthenticationError(\"restricted: permission denied\")\n",
       "        if await self.authenticator.can_do(auth_token, Action.save.value, event):\n            pass\n        else:\n            raise AuthenticationError(\"restricted: permission denied\")\n"),
 ]
+
+# functions whose syntactic mutants are used for the thorough tier's sensitivity figure (sa/automut.py)
+ANCHORS = [
+    "nostr_relay.auth:Authenticator.can_do",
+    "nostr_relay.auth:Authenticator.parse_options",
+    "nostr_relay.storage.base:BaseStorage.subscribe",
+    "nostr_relay.storage.db:DBStorage.add_event",
+    "nostr_relay.storage.kv:LMDBStorage.add_event",
+    "nostr_relay.storage.base:BaseSubscription.notify",
+    "nostr_relay.storage.db:DBStorage.set_auth_roles",
+    "nostr_relay.web:ViewEventResource.on_get",
+]
